@@ -73,6 +73,13 @@ pub fn run_program(sim: &Sim<Event>, uni: &Arc<UniCtx>, c: &Cmd) {
             run_program(sim, uni, a);
             run_program(sim, uni, b);
         }
+        // `Capability::map_event`: the tasks below run on a context that maps every event they send
+        Cmd::MapEvent(id, c) => {
+            use crux_core::Capability;
+            let id = *id;
+            let mapped: Sim<Event> = sim.map_event(move |e: Event| Event::Mapped(id, Box::new(e)));
+            run_program(&mapped, uni, c);
+        }
         _ => {}
     }
 }
@@ -91,6 +98,7 @@ pub fn expressible(c: &Cmd) -> bool {
         Cmd::Async(_, t) => stmts_ok(t),
         Cmd::All(cs) | Cmd::Collect(cs) => cs.iter().all(expressible),
         Cmd::And(a, b) => expressible(a) && expressible(b),
+        Cmd::MapEvent(_, c) => expressible(c),
         _ => false,
     }
 }
